@@ -16,7 +16,7 @@ def run(tier, seed):
     from .. import relay
     common.PID_ALIAS.update({"RELAY": "C01"})
     return common.drop_foreign(sqlm.suites_c01(tier, seed) + kvb.suites_c01(tier, seed) + [relay.suite_live(tier, seed, pid="C01"),
-                                  relay.suite_relay(tier, seed, "sql", n=20 if tier == "quick" else 100, label="answers", pid="C01"),
+                                  relay.suite_relay(tier, seed, "sql", n=20 if tier == "quick" else 100, label="answers", pid="C01"), relay.suite_exhaustive(tier, seed, "sql", pid="C01"),
                                   relay.suite_validate(tier, seed, pid="C01", entry="filt.validate")], "C01")
 
 
